@@ -59,8 +59,9 @@ type c11Case struct {
 	Q      quote `json:"quote"`
 	Rel    int   `json:"rel"` // in-out relative to the reference fee: 0 fee-1, 1 fee, 2 fee+1, 3 out>in, 4 equal, 5 ample
 	OnEst  bool  `json:"on_estimate"`
-	OutRep int   `json:"out_rep,omitempty"` // >0: the first output kind repeated this many times
-	InRep  int   `json:"in_rep,omitempty"`  // >0: this many inputs
+	OutRep int   `json:"out_rep,omitempty"`    // >0: the first output kind repeated this many times
+	InRep  int   `json:"in_rep,omitempty"`     // >0: this many inputs
+	QForm  int   `json:"quote_form,omitempty"` // how the quote object is put together, see quote.libForm
 }
 
 func c11Build(c c11Case) *txref.Tx {
@@ -125,7 +126,7 @@ func c11Check(c c11Case) (fs []rep.Finding) {
 		est.Ins[0].PrevSats = in.Uint64()
 	}
 	tx := toLib(ref)
-	fq := c.Q.lib()
+	fq := c.Q.libForm(c.QForm)
 
 	total, std, data := refSizes(ref)
 	sz := tx.SizeWithTypes()
@@ -336,6 +337,18 @@ func init() {
 		})
 		// counts on both sides of the varint boundary, independently for inputs and outputs
 		var bc []c11Case
+		// the same quotes put together through other call sequences
+		for _, os := range [][]int{{}, {0}, {3}, {0, 5}, {5, 0, 3}, {8, 0}} {
+			for nin := 1; nin <= 2; nin++ {
+				for _, q := range c11Quotes {
+					for rel := 0; rel < 3; rel++ {
+						for form := 1; form <= 5; form++ {
+							bc = append(bc, c11Case{Outs: os, NIn: nin, Signed: 2, Q: q, Rel: rel, QForm: form}, c11Case{Outs: os, NIn: nin, Signed: 0, Q: q, Rel: rel, OnEst: true, QForm: form})
+						}
+					}
+				}
+			}
+		}
 		for _, nout := range []int{252, 253, 254} {
 			for _, nin := range []int{0, 1, 2} {
 				for _, k := range []int{0, 3, 11} {
